@@ -102,3 +102,7 @@ W int v_fputs(const char *s, FILE *f) { return fputs(s, f); }
 W int v_fputc(int c, FILE *f) { return fputc(c, f); }
 W int v_puts(const char *s) { return puts(s); }
 W size_t v_fwrite(const void *p, size_t a, size_t b, FILE *f) { return fwrite(p, a, b, f); }
+W long v_strtol(const char *a, char **e, int b) { return strtol(a, e, b); }
+W long long v_strtoll(const char *a, char **e, int b) { return strtoll(a, e, b); }
+W unsigned long v_strtoul(const char *a, char **e, int b) { return strtoul(a, e, b); }
+W unsigned long long v_strtoull(const char *a, char **e, int b) { return strtoull(a, e, b); }
